@@ -97,12 +97,24 @@ type solveJob struct {
 }
 
 func (x *FnExec) queryFor(o *Obl, model bool) string {
+	x.tcMu.Lock()
+	defer x.tcMu.Unlock()
 	var as []*Term
-	as = append(as, x.facts[:o.NFacts]...)
-	as = append(as, x.assumes[:o.NAssume]...)
+	// partial evaluation of everything under the literals of the path condition
+	env := x.tc.newSimpEnv(o.Guard)
+	for _, f := range x.facts[:o.NFacts] {
+		if s := env.simp(f); !s.isTrue() {
+			as = append(as, s)
+		}
+	}
+	for _, f := range x.assumes[:o.NAssume] {
+		if s := env.simp(f); !s.isTrue() {
+			as = append(as, s)
+		}
+	}
 	as = append(as, o.Guard)
 	if !o.Cover {
-		as = append(as, x.tc.Not(o.Goal))
+		as = append(as, x.tc.Not(env.simp(o.Goal)))
 	}
 	return x.tc.Query("ALL", as, model, nil)
 }
@@ -149,6 +161,27 @@ func solveAll(jobs []solveJob, timeout time.Duration, par int, all bool) {
 					}
 				}
 				o.Solver = strings.Join(verdicts, ",")
+			}
+			if o.Result != "unsat" && o.Result != "sat" && !o.Cover && o.Guard.op == "or" && len(o.Guard.args) <= 12 {
+				// case split over the disjuncts of the path condition (join of several paths)
+				allUnsat := true
+				var total int64
+				for ci, d := range o.Guard.args {
+					sub := *o
+					sub.Guard = d
+					q2 := j.x.queryFor(&sub, false)
+					f2 := filepath.Join(j.dir, sanitize(o.Name)+fmt.Sprintf(".case%d.smt2", ci))
+					os.WriteFile(f2, []byte(q2), 0o644)
+					r2 := solveQuery(f2, to, false)
+					total += r2[0].ms
+					if r2[0].result != "unsat" {
+						allUnsat = false
+						break
+					}
+				}
+				if allUnsat {
+					o.Result, o.Solver, o.Ms = "unsat", fmt.Sprintf("case-split(%d)", len(o.Guard.args)), o.Ms+total
+				}
 			}
 			if o.Result != "unsat" && o.Result != "sat" {
 				var outs []string
